@@ -690,13 +690,56 @@ func vSem(e *vExpr, v vVal) bool {
 
 // The fragment on which the meaning of NOT inside a sequence is unambiguous (notes/C03.md): where something
 // follows in a sequence (non-last operand of THEN, at any depth), (1) a NOT is applied only to operands
-// without NOT and THEN, (2) an AND is applied only to operands without THEN.
+// without NOT and THEN, (2) an AND is applied only to operands without THEN; and (3) where the left side of a
+// THEN can end at several positions (it contains an AND), the right side negates only ORs of filters.
 func vNoThen(e *vExpr) bool {
 	if e.Op == "then" {
 		return false
 	}
 	for _, k := range e.Kids {
 		if !vNoThen(k) {
+			return false
+		}
+	}
+	return true
+}
+
+// can e end at more than one payload position (conservative: an AND outside NOT)
+func vMultiEnd(e *vExpr) bool {
+	switch e.Op {
+	case "and":
+		return true
+	case "or", "then":
+		for _, k := range e.Kids {
+			if vMultiEnd(k) {
+				return true
+			}
+		}
+	}
+	return false
+}
+
+func vOrOnly(e *vExpr) bool {
+	switch e.Op {
+	case "atom", "skip":
+		return true
+	case "or":
+		for _, k := range e.Kids {
+			if !vOrOnly(k) {
+				return false
+			}
+		}
+		return true
+	}
+	return false
+}
+
+func vNotsOrOnly(e *vExpr) bool {
+	if e.Op == "not" {
+		return vOrOnly(e.Kids[0])
+	}
+	for _, k := range e.Kids {
+		if !vNotsOrOnly(k) {
 			return false
 		}
 	}
@@ -722,10 +765,15 @@ func vWf(e *vExpr, tail bool) bool {
 	case "not":
 		return vWf(e.Kids[0], true) && (tail || vSimple(e.Kids[0]))
 	case "then":
+		multi := false
 		for i, k := range e.Kids {
 			if !vWf(k, tail && i == len(e.Kids)-1) {
 				return false
 			}
+			if i > 0 && multi && !vNotsOrOnly(k) {
+				return false
+			}
+			multi = multi || vMultiEnd(k)
 		}
 		return true
 	case "and":
